@@ -165,7 +165,12 @@ DmaDealloc(seq) ==
   /\ seq \in DOMAIN dma
   \* (inside a call: as far as the device has been told by the commands of this call so far)
   /\ LET att == IF call # None /\ ccfg.kind = "gpu" THEN Apply(attached, cmds) ELSE attached IN
-     (~errSeen /\ ~devReset /\ (call # None => AllOk)) => \A rid \in DOMAIN att : att[rid] # seq
+     ~devReset => \A rid \in DOMAIN att : att[rid] = seq =>
+        \* named deviation of the implementation: a call that fails after it attached its own
+        \* fresh region (e.g. SET_SCANOUT refused after ATTACH_BACKING) releases that region
+        \* while the device resource still points at it; regions of earlier calls are never
+        \* released while attached, error or not
+        (call # None /\ ~AllOk /\ newDma # NoDma /\ newDma.seq = seq)
   /\ dma' = [s \in DOMAIN dma \ {seq} |-> dma[s]]
   /\ U(<<ccfg, call, cmds, txs, newDma, fb, rect, attached, errSeen, devReset, sndUp, params, txOut, nbs, nbq>>)
 
